@@ -133,6 +133,8 @@ func dial(st *stack.Stack, proto, kind, localIP string) (*conn, error) {
 		o.SNI = d.SNI
 	case "tworec":
 		o.Fragment = 37 // cut inside the random: tlsx returns an error (cuts inside the cipher list make tlsx panic, see D14)
+	case "tworeccs":
+		o.Fragment = stack.FragmentInCipherList // the cut that made the JA3 parser panic (D14, repaired): an error like any other
 	}
 	cl, err := stack.DialUTLS(st.Addr, d.Spec(), o)
 	if err != nil {
